@@ -258,6 +258,7 @@ fn caller_body(spec: HistSpec, pl: Arc<Plan>, dir: String, acks: Arc<AckLog>, ou
     let inst = sched::current_inst();
     let mut g = StoreGuard { rl: Some(rl), inst };
     let mut next_flush = 0u64;
+    let mut boundary_before_last_op: Option<LogId> = None;
     for (i, op) in spec.hist.iter().enumerate() {
         let gatek = match op {
             SOp::WaitAck => OpGate::WaitAck(pl.wait_targets[&i]),
@@ -275,6 +276,10 @@ fn caller_body(spec: HistSpec, pl: Arc<Plan>, dir: String, acks: Arc<AckLog>, ou
         }
         sched::push_event(Event::OpStart { tid: 0, idx: i });
         let rl = g.rl.as_mut().unwrap();
+        if let SOp::W(_) = op {
+            // same segment as the write's cache access: the boundary in force
+            boundary_before_last_op = rl.verif_cache_resident().1;
+        }
         let (ok, info) = match op {
             SOp::W(w) => {
                 let r = std::panic::catch_unwind(std::panic::AssertUnwindSafe(|| match w {
@@ -306,22 +311,57 @@ fn caller_body(spec: HistSpec, pl: Arc<Plan>, dir: String, acks: Arc<AckLog>, ou
                 (true, String::new())
             }
             SOp::CacheCheck => {
-                let (resident, _b, items, size) = rl.verif_cache_resident();
+                let (resident, boundary, items, size) = rl.verif_cache_resident();
                 let st = rl.stat();
                 let n = resident.len() as u64;
                 let sz: u64 = resident.iter().map(|x| x.1).sum();
+                let mut bad: Option<(String, String)> = None;
                 if items != n || size != sz || st.payload_cache_item_count != n || st.payload_cache_size != sz {
-                    if spec.o_c15 {
-                        sched::push_violation(svio(
-                            &spec,
-                            "cache-accounting",
-                            format!("op {}: counters items {} size {} but resident set has {} entries / {} bytes", i, items, size, n, sz),
-                            json!({"op_index": i}),
-                        ));
+                    bad = Some((
+                        "cache-accounting".to_string(),
+                        format!("op {}: counters items {} size {} (stat {} / {}) but the resident set has {} entries / {} bytes", i, items, size, st.payload_cache_item_count, st.payload_cache_size, n, sz),
+                    ));
+                }
+                // right after an accepted append: only entries above the boundary
+                // that was in force when the append ran may exceed the limits
+                if bad.is_none() && i > 0 {
+                    if let (SOp::W(Op::Append(_)), true) = (&spec.hist[i - 1], pl.accepted[i - 1]) {
+                        if n > st.payload_cache_max_item || sz > st.payload_cache_capacity {
+                            for (id, _) in &resident {
+                                if Some(*id) <= boundary_before_last_op {
+                                    bad = Some((
+                                        "cache-over-limit-unpinned".to_string(),
+                                        format!(
+                                            "op {}: after the append the cache is over its limit (items {}/{} size {}/{}) while resident {:?} is at or below the boundary {:?} that was in force at the append",
+                                            i, n, st.payload_cache_max_item, sz, st.payload_cache_capacity, id, boundary_before_last_op
+                                        ),
+                                    ));
+                                    break;
+                                }
+                            }
+                        }
                     }
-                    (false, "cache counters differ".to_string())
-                } else {
-                    (true, String::new())
+                }
+                // after idle + drain nothing at or below the boundary is resident
+                if bad.is_none() && i >= 2 && matches!(spec.hist[i - 1], SOp::Drain) && matches!(spec.hist[i - 2], SOp::WaitIdle) {
+                    for (id, _) in &resident {
+                        if Some(*id) <= boundary {
+                            bad = Some((
+                                "cache-drain".to_string(),
+                                format!("op {}: after idle + drain, resident {:?} is at or below the boundary {:?}", i, id, boundary),
+                            ));
+                            break;
+                        }
+                    }
+                }
+                match bad {
+                    Some((key, what)) => {
+                        if spec.o_c15 {
+                            sched::push_violation(svio(&spec, &key, what.clone(), json!({"op_index": i})));
+                        }
+                        (false, what)
+                    }
+                    None => (true, String::new()),
                 }
             }
             SOp::Read => {
@@ -1350,3 +1390,66 @@ pub fn from_syms(syms: &[Sym]) -> Vec<SOp> {
 }
 
 pub const WALL_PER_SHARD: Duration = Duration::from_secs(3600);
+
+/// Re-executes one recorded case (history + schedule) without the explorer and
+/// evaluates the property's oracles on that single execution.
+pub fn replay(prop: &str, r: &Value) -> i32 {
+    let hist: Vec<SOp> = r["history"].as_array().map(|a| a.iter().map(sop_from_json).collect()).unwrap_or_default();
+    let cfg = crate::seqx::cfg_from_json(&r["cfg"]);
+    let policy = match r["fault_policy"].as_str().unwrap_or("None") {
+        "WorkerEio" => FaultPolicy::WorkerEio,
+        "WorkerAll" => FaultPolicy::WorkerAll,
+        "WorkerSyncEio" => FaultPolicy::WorkerSyncEio,
+        _ => FaultPolicy::None,
+    };
+    let spec = HistSpec {
+        prop: prop.to_string(),
+        hist,
+        cfg,
+        crash: matches!(prop, "C03" | "C05" | "C08"),
+        every_byte_newest: false,
+        max_faults: r["max_faults"].as_u64().unwrap_or(0) as usize,
+        fault_policy: policy,
+        o_c03: matches!(prop, "C03" | "C08"),
+        o_c04: prop == "C04",
+        o_c05: prop == "C05",
+        o_c07: prop == "C07",
+        o_c08: prop == "C08",
+        o_c15: prop == "C15",
+        max_executions: 1,
+    };
+    let schedule: Vec<(usize, String)> = r["extra"]["schedule"]
+        .as_array()
+        .or_else(|| r["schedule"].as_array())
+        .map(|a| {
+            a.iter()
+                .filter_map(|x| x.as_str())
+                .filter_map(|s| s.split_once(':').map(|(t, l)| (t.parse().unwrap_or(0), l.to_string())))
+                .collect()
+        })
+        .unwrap_or_default();
+    let pl = Arc::new(plan(&spec.hist, &spec.cfg));
+    let faults_possible = spec.max_faults > 0 && spec.fault_policy != FaultPolicy::None;
+    let mut rp = sched::Replay { schedule: schedule.clone(), divergence: None, max_faults: spec.max_faults, fault_policy: spec.fault_policy };
+    let (res, co, acks, dir) = run_once(&spec, &pl, &mut rp, faults_possible);
+    if let Some(d) = &rp.divergence {
+        println!("REPLAY property={} the recorded schedule is no longer feasible on this tree: {}", prop, d);
+        return 2;
+    }
+    let mut ctx = HistCtx { seen_states: HashSet::new(), images: HashMap::new() };
+    let mut vios = vec![];
+    let mut stats = SchedStats::default();
+    // the analysis wants a Dfs for schedule text; build one that reports the replayed schedule
+    let dfs = Dfs::new(spec.max_faults, spec.fault_policy);
+    analyze(&spec, &pl, &res, &co, &acks, &dir, &dfs, &mut ctx, &mut vios, &mut stats, faults_possible);
+    println!("REPLAY property={} history=[{}] schedule_steps={} executed_steps={}", prop, shist_short(&spec.hist), schedule.len(), res.steps);
+    if vios.is_empty() {
+        println!("REPLAY property={} held for this case", prop);
+        0
+    } else {
+        for v in vios.iter().take(5) {
+            println!("REPLAY property={} VIOLATION key={} what={}", prop, v.key, v.what);
+        }
+        1
+    }
+}
